@@ -29,6 +29,10 @@ type Pass struct {
 	AdvanceSec int    `json:"advanceSec"` // clock step before the pass
 	Mode       string `json:"mode"`       // ok | cancelled | deadline | expire (after n ctx.Value() calls)
 	After      int    `json:"after"`
+	// (first pass only) a node that disappears WHILE the pass runs: its Node object is deleted and the cluster state
+	// forgets it at the pass's first List call, i.e. after the pass took its DeepCopyNodes() snapshot and before it records
+	// its results. The pass is then judged against a twin world in which the node disappeared just before the pass.
+	LoseNodeDuring string `json:"loseNodeDuring,omitempty"`
 }
 
 type PassIn struct {
@@ -70,6 +74,10 @@ type PassOut struct {
 	DraClaims      int `json:"draClaims"`
 	DraTmpl        int `json:"draTmpl"`
 	DraTmplCounter int `json:"draTmplCounter"`
+	// CapacityBuffer virtual pods placed on existing nodes / in new NodeClaims / not placed
+	VirtualPlaced int `json:"virtualPlaced"`
+	VirtualClaims int `json:"virtualClaims"`
+	VirtualErrors int `json:"virtualErrors"`
 }
 
 type ProvOut struct {
@@ -108,23 +116,67 @@ func (c *valueExpiringCtx) Err() error {
 func (c *valueExpiringCtx) Done() <-chan struct{}       { return c.done }
 func (c *valueExpiringCtx) Deadline() (time.Time, bool) { return time.Time{}, false }
 
+// placed lists the real pods of a placement: CapacityBuffer virtual pods are no API objects, the cluster state keeps no
+// bookkeeping for them and Results.Record nominates no node for them
 func placed(pods []*corev1.Pod) []PlacedPod {
 	out := []PlacedPod{}
 	for _, p := range pods {
+		if isVirtual(p) {
+			continue
+		}
 		out = append(out, PlacedPod{Name: p.Name, Bound: p.Spec.NodeName != ""})
 	}
 	sort.Slice(out, func(i, j int) bool { return out[i].Name < out[j].Name })
 	return out
 }
 
-func implProvision(raw json.RawMessage) (any, error) {
-	var in PassIn
-	if err := json.Unmarshal(raw, &in); err != nil {
-		return nil, err
+func entryKey(e Entry) string { return e.Sec + "\x00" + e.Obj + "\x00" + e.Fld }
+
+// applyDelta returns snapshot m changed the way t0 -> t1 changed: components that t1 dropped are dropped, components it
+// added are added, components whose digest moved take t1's digest; where m and t0 disagreed about such a component its new
+// value is unknown (wildcard).
+func applyDelta(m, t0, t1 Snapshot) (Snapshot, map[string]bool) {
+	d0, d1 := map[string]string{}, map[string]string{}
+	for _, e := range t0 {
+		d0[entryKey(e)] = e.Dig
 	}
+	for _, e := range t1 {
+		d1[entryKey(e)] = e.Dig
+	}
+	wild := map[string]bool{}
+	out := Snapshot{}
+	for _, e := range m {
+		k := entryKey(e)
+		v1, in1 := d1[k]
+		v0, in0 := d0[k]
+		switch {
+		case in0 && !in1:
+			continue // dropped
+		case in0 && in1 && v0 != v1:
+			if e.Dig != v0 {
+				wild[k] = true
+			}
+			e.Dig = v1
+		}
+		out = append(out, e)
+	}
+	have := map[string]bool{}
+	for _, e := range m {
+		have[entryKey(e)] = true
+	}
+	for _, e := range t1 {
+		if _, in0 := d0[entryKey(e)]; !in0 && !have[entryKey(e)] {
+			out = append(out, e)
+		}
+	}
+	return out.sorted(), wild
+}
+
+// setupProv builds the world of a c18.provision input up to the first snapshot.
+func setupProv(in *PassIn) (*Env, *ProvOut, error) {
 	e, err := BuildEnv(&in.Scn, &in.Ext)
 	if err != nil {
-		return nil, err
+		return nil, nil, err
 	}
 	batch := time.Duration(in.BatchMaxSec) * time.Second
 	if in.BatchMaxSec <= 0 {
@@ -141,7 +193,7 @@ func implProvision(raw json.RawMessage) (any, error) {
 		}
 		np.StatusConditions().SetTrue(v1.ConditionTypeNodeRegistrationHealthy)
 		if err := e.W.Client.Status().Update(e.Ctx, np); err != nil {
-			return nil, err
+			return nil, nil, err
 		}
 		out.Healthy = append(out.Healthy, name)
 	}
@@ -152,6 +204,18 @@ func implProvision(raw json.RawMessage) (any, error) {
 		}
 	}
 	if out.Ignored, err = e.ignoredPods(); err != nil {
+		return nil, nil, err
+	}
+	return e, out, nil
+}
+
+func implProvision(raw json.RawMessage) (any, error) {
+	var in PassIn
+	if err := json.Unmarshal(raw, &in); err != nil {
+		return nil, err
+	}
+	e, out, err := setupProv(&in)
+	if err != nil {
 		return nil, err
 	}
 	take := func() (int, error) {
@@ -171,7 +235,8 @@ func implProvision(raw json.RawMessage) (any, error) {
 	if err != nil {
 		return nil, err
 	}
-	for _, p := range in.Passes {
+	var wildcards map[string]bool
+	for pi, p := range in.Passes {
 		if p.AdvanceSec > 0 {
 			e.W.Clock.Step(time.Duration(p.AdvanceSec) * time.Second)
 			if cur, err = take(); err != nil { // the clock moved: Nominated() may legitimately flip
@@ -186,9 +251,41 @@ func implProvision(raw json.RawMessage) (any, error) {
 		} else {
 			ctx, cancel = e.ctxFor(p.Mode, p.After)
 		}
+		if pi == 0 && p.LoseNodeDuring != "" {
+			// the twin world: the node disappears just before the pass; its snapshot is what the pass is compared with
+			twin, _, err := setupProv(&in)
+			if err != nil {
+				return nil, err
+			}
+			// two worlds built from the same input differ in a few digests (condition timestamps, generated names): what the
+			// node's disappearance does is therefore taken as a DELTA in the twin (snapshot before / after it) and applied to
+			// this world's own snapshot
+			t0, err := twin.Take(nil)
+			if err != nil {
+				return nil, err
+			}
+			twin.loseNode(p.LoseNodeDuring)
+			t1, err := twin.Take(nil)
+			if err != nil {
+				return nil, err
+			}
+			tv, err := twin.TakeValues()
+			if err != nil {
+				return nil, err
+			}
+			before, wild := applyDelta(out.Snaps[cur], t0, t1)
+			out.Snaps, out.Vals = append(out.Snaps, before), append(out.Vals, tv)
+			po.Before = len(out.Snaps) - 1
+			wildcards = wild
+			lose := func() { e.loseNode(p.LoseNodeDuring) }
+			e.onList.Store(&lose)
+		}
 		w0 := e.Writes.Load()
 		res, serr := e.Prov.Schedule(ctx)
 		cancel()
+		if h := e.onList.Swap(nil); h != nil {
+			(*h)() // the pass made no List call (it failed before): the node disappears right after it
+		}
 		po.Writes = e.Writes.Load() - w0
 		po.Class = "ok"
 		if serr != nil {
@@ -198,7 +295,12 @@ func implProvision(raw json.RawMessage) (any, error) {
 			}
 		}
 		for _, en := range res.ExistingNodes {
-			if len(en.Pods) == 0 {
+			for _, p := range en.Pods {
+				if isVirtual(p) {
+					po.VirtualPlaced++
+				}
+			}
+			if len(placed(en.Pods)) == 0 {
 				continue
 			}
 			ep := ExistingPlacement{ProviderID: en.ProviderID(), Pool: en.Labels()[v1.NodePoolLabelKey], Pods: placed(en.Pods)}
@@ -209,6 +311,11 @@ func implProvision(raw json.RawMessage) (any, error) {
 		}
 		sort.Slice(po.Existing, func(i, j int) bool { return po.Existing[i].ProviderID < po.Existing[j].ProviderID })
 		for _, nc := range res.NewNodeClaims {
+			for _, p := range nc.Pods {
+				if isVirtual(p) {
+					po.VirtualClaims++
+				}
+			}
 			po.Claims = append(po.Claims, ClaimPlacement{Pool: nc.Labels[v1.NodePoolLabelKey], Pods: placed(nc.Pods)})
 		}
 		sort.Slice(po.Claims, func(i, j int) bool {
@@ -219,12 +326,31 @@ func implProvision(raw json.RawMessage) (any, error) {
 			return fmt.Sprint(a.Pods) < fmt.Sprint(b.Pods)
 		})
 		for p := range res.PodErrors {
+			if isVirtual(p) {
+				po.VirtualErrors++
+				continue
+			}
 			po.Errors = append(po.Errors, p.Name)
 		}
 		sort.Strings(po.Errors)
 		po.DraClaims, po.DraTmplCounter, po.DraTmpl = draSummary(res)
 		if cur, err = take(); err != nil {
 			return nil, err
+		}
+		if len(wildcards) > 0 {
+			// components whose expected value cannot be derived (they differ between the two worlds AND the disappearance
+			// changed them): taken as they are
+			b := out.Snaps[po.Before]
+			for _, en := range out.Snaps[cur] {
+				if wildcards[entryKey(en)] {
+					for i := range b {
+						if entryKey(b[i]) == entryKey(en) {
+							b[i].Dig = en.Dig
+						}
+					}
+				}
+			}
+			wildcards = nil
 		}
 		po.After = cur
 		out.Passes = append(out.Passes, po)
@@ -264,6 +390,12 @@ func genProvision(r *rand.Rand, t core.Tier) any {
 	if r.Float64() < 0.15 {
 		ext.UntrackedAntiPods = 1 + r.IntN(2)
 	}
+	if r.Float64() < 0.2 {
+		ext.Buffers = genBuffers(r, s)
+		if r.Float64() < 0.5 {
+			ext.DefaultSpread = true
+		}
+	}
 	in := PassIn{Scn: *s, Ext: *ext, BatchMaxSec: []int{1, 4, 5, 6, 10, 30}[r.IntN(6)], Healthy: []string{}, Ack: []string{}}
 	for _, np := range s.Pools {
 		if r.Float64() < 0.5 {
@@ -292,6 +424,18 @@ func genProvision(r *rand.Rand, t core.Tier) any {
 		}
 		in.Passes = append(in.Passes, p)
 	}
+	// a node disappears while the first pass runs (after DeepCopyNodes, before Results.Record)
+	if r.Float64() < 0.25 {
+		var withNode []string
+		for _, n := range s.Nodes {
+			if n.Stage != "claim" || n.Pool == "" {
+				withNode = append(withNode, n.Name)
+			}
+		}
+		if len(withNode) > 0 {
+			in.Passes[0].LoseNodeDuring = withNode[r.IntN(len(withNode))]
+		}
+	}
 	return in
 }
 
@@ -319,6 +463,15 @@ func provLabels(raw json.RawMessage, impl any) []string {
 			if n, _ := pm["draClaims"].(json.Number); n != "" && n != "0" {
 				l = append(l, "dra:allocates-claims")
 			}
+			if n, _ := pm["virtualPlaced"].(json.Number); n != "" && n != "0" {
+				l = append(l, "buffer:virtual-pod-on-existing-node")
+			}
+			if n, _ := pm["virtualClaims"].(json.Number); n != "" && n != "0" {
+				l = append(l, "buffer:virtual-pod-in-new-nodeclaim")
+			}
+			if n, _ := pm["virtualErrors"].(json.Number); n != "" && n != "0" {
+				l = append(l, "buffer:virtual-pod-unschedulable")
+			}
 			if n, _ := pm["draTmpl"].(json.Number); n != "" && n != "0" {
 				l = append(l, "dra:allocates-template-devices")
 			}
@@ -327,10 +480,24 @@ func provLabels(raw json.RawMessage, impl any) []string {
 			}
 		}
 	}
-	for _, p := range in.Passes {
+	for i, p := range in.Passes {
 		l = append(l, "mode:"+p.Mode)
+		if i == 0 && p.LoseNodeDuring != "" {
+			l = append(l, "node-lost-during-pass")
+			if ps, ok := m["passes"].([]any); ok && len(ps) > 0 {
+				pm, _ := ps[0].(map[string]any)
+				ex, _ := pm["existing"].([]any)
+				for _, x := range ex {
+					xm, _ := x.(map[string]any)
+					if xm["providerID"] == "fake://"+p.LoseNodeDuring {
+						l = append(l, "node-lost-during-pass-that-placed-a-pod-on-it")
+					}
+				}
+			}
+		}
 	}
 	l = append(l, draLabels(in.Ext.DRA)...)
+	l = append(l, bufferLabels(in.Ext.Buffers, in.Ext.DefaultSpread)...)
 	if in.Ext.UntrackedAntiPods > 0 {
 		l = append(l, "anti-affinity-pod-event-before-node-event")
 	}
@@ -380,6 +547,11 @@ func shrinkProv(raw json.RawMessage) []any {
 		if x.Scn.DaemonSets == nil {
 			x.Scn.DaemonSets = []world.DaemonSet{}
 		}
+		out = append(out, x)
+	}
+	for _, c := range core.ShrinkList(in.Ext.Buffers) {
+		x := in
+		x.Ext.Buffers = c
 		out = append(out, x)
 	}
 	if in.Ext.DRA != nil {
